@@ -69,6 +69,12 @@ T["C08"] = dict(
     technique="TLA+ step machine vs declarative definition checked by TLC; spec->code replay",
     ref="6. C08")
 
+T["C06"] = dict(
+    text="spec/ShuntingYard.tla (operator table of the function factory + Function.infix_to_postfix) and spec/RuleSyntax.tla (printer with minimal/redundant parentheses, the Antecedent.load / Consequent.load / Rule.parse machines, the documented grammar). TLC proves the design theorem on 1,548 trees x 3 styles: reading the printed antecedent returns the tree (and binds tighter than or, left associative, parentheses override); canary with exchanged precedences must fail. Every text (spaced and unspaced parentheses) is loaded by Rule.create and its postfix compared; the trees are evaluated by spec/Engine.tla inside engines (input and output variables in propositions, hedges, any, disabled variables) for 53 operator pairs or distinguishable pairs, 3 weights and 30 rows, and the real rule degrees compared.",
+    note="Trees to two operator levels exhaustively (thorough: deeper seeded trees); 10 compositions of a discontinuous with a quotient norm are excluded as ill-conditioned in binary64; 1e-9 tolerance.",
+    technique="TLA+ syntax machines + TLC design theorem; spec->code replay of texts (postfix) and of meaning (degrees)",
+    ref="6. C06")
+
 PLANNED = {}
 
 def main():
